@@ -32,7 +32,8 @@ TRUSTED = [
     "tools/gen_tables.py + tools/tables/t16_sql.py (keyword sets, option tuples, the literal text of the three regular expressions, re \\s / \\w / str.upper tables of this interpreter)",
     "the hand transcription of _QUOTED_PATTERN into Model/Sql.v (leftmost match, ordered alternatives, backtracking of the doubled-quote group): checked on every run by comparing strip_quoted with _strip_quoted on the whole stream",
     "Model/SqlSpec.v as a description of sqlite3GetToken (tokenize.c): written from the C source, compared on every run with the statement boundaries SQLite reports; blob literals and NUL are not modelled, individually illegal characters are over-approximated as live",
-    "trusted semantic step: an SQLite statement whose leading keyword is SELECT / EXPLAIN / VALUES-free WITH..SELECT does not modify the database (validated by execution; SQL functions with side effects such as the shell's writefile()/edit() or load_extension() are outside the lexical property)",
+    "trusted semantic step: an SQLite statement whose leading keyword is SELECT / EXPLAIN / WITH..SELECT and that calls none of writefile/edit/load_extension does not modify the database or other files (validated by execution with the engine and the real shell)",
+    "the hand transcription of the three guard patterns of cli/sqlite3.py (_TCL_VARIABLE, _SHELL_FUNCTION, _VACUUM; re.IGNORECASE through a generated per-letter table, \\b through re \\w): their literal text is pinned by the plugin and the searches are compared on the whole stream",
     "ground truth: Python's sqlite3 module (SQLite " + sqlite3.sqlite_version + ") and, if present, the sqlite3 shell on PATH",
     "extraction: ExtrOcamlBasic only; OCaml 4.13.1; ocaml/driver.ml; cross-checked in Coq by vm_compute on a sample",
 ]
@@ -243,14 +244,14 @@ def run(tier, seed, replay=None):
             cases = [g.Case([replay["sql"]], "replay")]
     else:
         cases += g.systematic(rng)
-        n_rand, n_soup = (1500, 700) if tier == "quick" else (140000, 60000)
+        n_rand, n_soup = (1500, 700) if tier == "quick" else (100000, 40000)
         cases += [g.rand_case(rng) for _ in range(n_rand)]
         cases += [g.soup_case(rng) for _ in range(n_soup)]
         for fb in FLAG_SETS_BEFORE:
             for fa in FLAG_SETS_AFTER:
                 for a in CLI_ARGS:
                     cli_cases.append(["sqlite3"] + fb + ["main.db"] + a + fa)
-        n_cli = 300 if tier == "quick" else 10000
+        n_cli = 300 if tier == "quick" else 8000
         for _ in range(n_cli):
             c = g.rand_case(rng) if rng.random() < 0.7 else g.soup_case(rng)
             fb = rng.choice(FLAG_SETS_BEFORE) if rng.random() < 0.5 else []
@@ -294,6 +295,27 @@ def run(tier, seed, replay=None):
                                           "model": mvp, "impl": iv})
             verdicts[d] = iv
         v = verdicts["sqlite3"]
+        # the guards of the repaired sqlite3 handler and _classify_sql
+        if hasattr(h_sqlite3, "_classify_sql"):
+            ig = [h_sqlite3._TCL_VARIABLE.search(sql) is not None, h_sqlite3._SHELL_FUNCTION.search(sql) is not None,
+                  h_sqlite3._VACUUM.search(sql) is not None]
+            mg = [x == "1" for x in model.call(["sqlite3_guards", sql])]
+            if ig != mg:
+                out.disagreements.append({"correspondence": "Sql.tcl_search/shell_fn_search/vacuum_search <-> _TCL_VARIABLE/_SHELL_FUNCTION/_VACUUM .search",
+                                          "sql": sql, "model": mg, "impl": ig})
+            ic = h_sqlite3._classify_sql(sql)
+            mc = model.call(["sqlite3_classify_sql", sql])
+            mcp = None if mc == [] else (mc[0] == "1")
+            if ic != mcp:
+                out.disagreements.append({"correspondence": "Sql.classify_sql <-> cli.sqlite3._classify_sql", "sql": sql, "model": mcp, "impl": ic})
+            if v is True and ic is not True:
+                out.count("guarded", "tcl-variable" if ig[0] else "shell-function")
+            if ig[0] and v is True:
+                # is_readonly_sql alone still takes the text for one SELECT: does the engine agree?  (documented, not judged:
+                # the handler no longer allows it)
+                out.count("core_only", "is_readonly_sql True on a variable-token text (handler asks)")
+        else:
+            out.disagreements.append({"correspondence": "cli.sqlite3 has no _classify_sql (handler older than d0eb2f8)", "sql": sql})
         seen_sql[sql] = v
         out.count("sqlite_verdict", str(v))
         nontrivial = v is True
